@@ -582,5 +582,22 @@ theorem map_concrete (hB : B.func "map".toList = none) (k : Nat) :
         (blockChainCode (mapBody B "x".toList) qname k 0) = { res := .error a, log := [] } ∧ a.kind = .runtime) :=
   ⟨map_chain_ok _ _ _ k (mapEnv_isChain hB k), map_chain_too_deep _ _ _ k (mapEnv_isChain hB k)⟩
 
+/-! ### non-vacuity: the hypotheses of the theorems above hold in concrete cases -/
+
+example : DynId (stdBuiltins 0) := stdBuiltins_dyn 0
+example : IsBlockChain (ctorArg (stdBuiltins 0)) (blockChainEnv (ctorArg (stdBuiltins 0)) 15) qname 15 :=
+  ctorEnv_isChain (std_dyn_func 0) 15
+example : IsBlockChain (mapBody (stdBuiltins 0) "x".toList) (blockChainEnv (mapBody (stdBuiltins 0) "x".toList) 16)
+    qname 16 := mapEnv_isChain (std_map_func 0) 16
+example : (ctorArg (stdBuiltins 0)).Sound (stdBuiltins 0) := ctorArg_sound (stdBuiltins_dyn 0)
+-- `block_chain_value` / `block_chain_fails`: budgets on both sides of the edge, 3 references through map bodies
+example : runAt (stdBuiltins 0) 7 (blockChainEnv (mapBody (stdBuiltins 0) "x".toList) 3)
+    (blockChainCode (mapBody (stdBuiltins 0) "x".toList) qname 3 0) true [] = { res := .ok (.int 3), log := [] } :=
+  block_chain_value _ (mapBody_sound _) qname 3 (by omega) 3 _ 0 7 [] (mapEnv_isChain (std_map_func 0) 3) rfl (by decide)
+example : ∃ a, runAt (stdBuiltins 0) 6 (blockChainEnv (mapBody (stdBuiltins 0) "x".toList) 3)
+    (blockChainCode (mapBody (stdBuiltins 0) "x".toList) qname 3 0) true [] = { res := .error a, log := [] } ∧
+    a.kind = .runtime :=
+  block_chain_fails _ (mapBody_sound _) qname 3 3 _ 0 6 [] (mapEnv_isChain (std_map_func 0) 3) rfl (by decide)
+
 end C12Blocks
 end Rscel
